@@ -9,8 +9,10 @@ From BT.Layout Require Import Model BuildProofs RoundTrip RecordProofs SizeProof
 From BT.Layout Require Import PosProofs.
 From BT.Tracer Require Import Model Decode RecordDecode Lemmas Spec BoundsProofs Chain Holes.
 
-(* observable part of a log for this file: packets handed over and discards *)
-Definition is_obs (e : ev) : bool := match e with EPacket _ _ | EDisc => true | _ => false end.
+(* observable part of a log for this file: packets handed over, discards, packet beginning / end
+   timestamps written (ghost events ETs 0 / ETs 1 of the model, the subject of C05) *)
+Definition is_obs (e : ev) : bool :=
+  match e with EPacket _ _ | EDisc => true | ETs k _ => k <? 2 | _ => false end.
 Definition obs (l : list ev) : list ev := filter is_obs l.
 Definition pkts (o : list ev) : list (nat * list Z) :=
   flat_map (fun e => match e with EPacket n b => [(n, b)] | _ => [] end) o.
@@ -23,6 +25,22 @@ Fixpoint snaps (n : nat) (o : list ev) : list nat :=
   | _ :: o => snaps n o
   end.
 Definition ndo (o : list ev) : nat := List.length (filter (fun e => match e with EDisc => true | _ => false end) o).
+
+(* values of the timestamps of one kind written so far (0: packet beginning, 1: packet end) *)
+Definition stamps_of (kind : nat) (o : list ev) : list Z :=
+  flat_map (fun e => match e with ETs k v => if k =? kind then [v] else [] | _ => [] end) o.
+Lemma stamps_of_app k o o' : stamps_of k (o ++ o') = stamps_of k o ++ stamps_of k o'.
+Proof. apply flat_map_app. Qed.
+
+Lemma stamps_of_obs k l : k < 2 -> stamps_of k (filter is_obs l) = stamps_of k l.
+Proof.
+  intros Hk. induction l as [|e l IH]; [reflexivity|].
+  destruct e as [c f o|f|f|k' v|v| |n b|c|c]; cbn [filter is_obs]; try exact IH;
+    try (change (stamps_of k (?e :: ?l)) with (stamps_of k [e] ++ stamps_of k l); cbn; exact IH).
+  destruct (Nat.ltb_spec k' 2) as [A|A].
+  - unfold stamps_of in *. cbn [flat_map]. rewrite IH. reflexivity.
+  - unfold stamps_of in *. cbn [flat_map]. destruct (Nat.eqb_spec k' k); [lia|]. cbn. exact IH.
+Qed.
 
 Lemma obs_app l l' : obs (l ++ l') = obs l ++ obs l'.
 Proof. apply filter_app. Qed.
@@ -40,8 +58,17 @@ Qed.
 Lemma ndisc_obs l : ndisc l = ndo (obs l).
 Proof.
   unfold ndisc, ndo, obs. induction l as [|e l IH]; [reflexivity|].
-  destruct e; cbn [filter is_obs List.length]; rewrite ?IH; reflexivity.
+  destruct e as [k f o|f|f|k v|v| |n b|c|c]; cbn [filter is_obs]; try exact IH.
+  - destruct (k <? 2); cbn [filter]; exact IH.
+  - cbn [filter List.length]. rewrite IH. reflexivity.
 Qed.
+
+Lemma pkts_ts o k v : pkts (o ++ [ETs k v]) = pkts o.
+Proof. rewrite pkts_app. cbn. apply app_nil_r. Qed.
+Lemma snaps_ts o n k v : snaps n (o ++ [ETs k v]) = snaps n o.
+Proof. rewrite snaps_app. cbn. apply app_nil_r. Qed.
+Lemma ndo_ts o k v : ndo (o ++ [ETs k v]) = ndo o.
+Proof. rewrite ndo_app. cbn. apply Nat.add_0_r. Qed.
 
 (* ghost description of one closed packet *)
 Record pk := mk_pk { k_psize : nat; k_seq : nat; k_tsb : Z; k_tse : Z; k_content : nat; k_disc : nat;
@@ -119,6 +146,15 @@ Section Hist.
            Some (canon_members pcms (subst pc_skips fv pcms (pc_open_vals (c_psize c) (c_seq c) tsb)),
                  c_off_content c)).
 
+  (* packet beginning / end timestamps: the values the specification of each packet carries are
+     the values of the ghost events ETs 0 / ETs 1 logged when they were written (cur_tsb: the
+     beginning timestamp of the open packet, if any) *)
+  Definition has_tsb : bool := d_has_clock d && has_member (d_pc d) "timestamp_begin".
+  Definition has_tse : bool := d_has_clock d && has_member (d_pc d) "timestamp_end".
+  Definition ts_ok (w : world) (K : list pk) (cur_tsb : list Z) : Prop :=
+    (has_tsb = true -> stamps_of 0 (obs (w_log w)) = map k_tsb K ++ cur_tsb) /\
+    (has_tse = true -> stamps_of 1 (obs (w_log w)) = map k_tse K).
+
   Definition fits (n : nat) : Prop := (Z.of_nat n < 2 ^ Z.of_nat cs_size)%Z.
   Definition or_ok (o : list ans) : Prop :=
     Forall (fun a => match a_newbuf a with Some b => fits (8 * b) | None => True end) o.
@@ -132,8 +168,9 @@ Section Hist.
     map k_seq K = map seqn (seq 0 (List.length K)) /\ c_seq (w_c w) = seqn (List.length K) /\
     if c_open (w_c w)
     then exists tsb hs, hdr_ctx_ok (w_c w) tsb hs /\
-                        chain t (c_s (w_c w)) (c_off_content (w_c w)) (c_at (w_c w)) cur
-    else cur = [] /\ c_at (w_c w) = c_psize (w_c w).
+                        chain t (c_s (w_c w)) (c_off_content (w_c w)) (c_at (w_c w)) cur /\
+                        ts_ok w K [tsb]
+    else cur = [] /\ c_at (w_c w) = c_psize (w_c w) /\ ts_ok w K [].
 
   (* the part of the invariant that does not speak about the open packet *)
   Definition HIb (w : world) (K : list pk) : Prop :=
@@ -176,6 +213,9 @@ Section Hist.
   Lemma same_core_trans w1 w2 w3 : same_core w1 w2 -> same_core w2 w3 -> same_core w1 w3.
   Proof. unfold same_core. intuition congruence. Qed.
 
+  Lemma ts_ok_obs w w' K c : obs (w_log w') = obs (w_log w) -> ts_ok w K c -> ts_ok w' K c.
+  Proof. unfold ts_ok. intros ->. auto. Qed.
+
   Lemma HIb_core w w' K : same_core w w' -> HIb w K -> HIb w' K.
   Proof.
     intros (A1 & A2 & A3 & A4 & A5 & A6 & A7 & A8 & A9 & A10 & A11)
@@ -189,6 +229,7 @@ Section Hist.
            (H1 & H2 & H3 & H4 & H5 & H6 & H7 & H8 & H9 & H10 & H11).
     unfold HI, len_ok. rewrite A1, A2, A3, A4, A5, A6, A7, A9, A10.
     repeat split; auto.
+    unfold ts_ok in *. rewrite A10.
     destruct (c_open (w_c w)); [|exact H11].
     destruct H11 as (tsb & hs & X & Y). exists tsb, hs.
     split; [|exact Y].
